@@ -1,17 +1,25 @@
 #!/usr/bin/env python3
-"""Byte-preserving edit of a repo file: bedit.py FILE OLDFILE NEWFILE
-OLD/NEW are given with LF endings; they are converted to the file's line-ending style.
-Fails unless OLD occurs exactly once."""
+"""Byte-preserving edit of a repo file (keeps CRLF / BOM).
+As a module: edit(path, old, new) with old/new given with LF endings; old must occur exactly once.
+As a script: bedit.py FILE OLDFILE NEWFILE"""
 import sys
-path, oldp, newp = sys.argv[1:4]
-data = open(path, 'rb').read()
-old = open(oldp, 'rb').read(); new = open(newp, 'rb').read()
-crlf = data.count(b'\r\n') > data.count(b'\n') // 2
-if crlf:
-    old = old.replace(b'\r\n', b'\n').replace(b'\n', b'\r\n')
-    new = new.replace(b'\r\n', b'\n').replace(b'\n', b'\r\n')
-n = data.count(old)
-if n != 1:
-    sys.exit(f"expected exactly one occurrence, found {n}")
-open(path, 'wb').write(data.replace(old, new))
-print("edited", path, "crlf" if crlf else "lf")
+
+
+def edit(path, old, new, count=1):
+    data = open(path, 'rb').read()
+    old = old.encode() if isinstance(old, str) else old
+    new = new.encode() if isinstance(new, str) else new
+    crlf = data.count(b'\r\n') > data.count(b'\n') // 2
+    if crlf:
+        old = old.replace(b'\r\n', b'\n').replace(b'\n', b'\r\n')
+        new = new.replace(b'\r\n', b'\n').replace(b'\n', b'\r\n')
+    n = data.count(old)
+    if n != count:
+        raise SystemExit(f"{path}: expected exactly {count} occurrence(s), found {n}")
+    open(path, 'wb').write(data.replace(old, new))
+    print("edited", path, "crlf" if crlf else "lf")
+
+
+if __name__ == "__main__":
+    path, oldp, newp = sys.argv[1:4]
+    edit(path, open(oldp, 'rb').read(), open(newp, 'rb').read())
